@@ -328,6 +328,20 @@ def b_poly(tier):
                 return e + 1
         if any(isinstance(c, Fraction) for _, c in a.data):
             continue        # Fractions are not valid expression constants for mappers
+        # extra arguments of the traversal (positional and keyword) reach the coefficients as they reach the base
+        class Scale(IdentityMapper):
+            def map_constant(self, e, k=1, *, factor=1):
+                return e * k * factor
+
+            def map_variable(self, e, k=1, *, factor=1):
+                return e
+        for args_, kw_, mult in (((), {"factor": 3}, 3), ((2,), {}, 2), ((2,), {"factor": 5}, 10)):
+            rs = outcome.run(lambda: Scale()(a, *args_, **kw_))
+            b.case(("idmap-args", repr(a.data), repr(args_), repr(kw_)))
+            wants = tuple((e, c * mult) for e, c in a.data)
+            if not (rs[0] == "val" and tuple(rs[1].data) == wants):
+                b.fail(Failure("polynomials", f"what=identity-mapper-extra-arguments p={a.data} args={args_} kw={kw_}", dict(kind="poly", op="idmap-args", p=repr(a.data), args=repr(args_), kw=repr(kw_)),
+                               expected=repr(wants), actual=(outcome.describe(rs) if rs[0] == "exc" else repr(tuple(rs[1].data)))[:200], functions=["IdentityMapper.map_polynomial"]))
         r = outcome.run(lambda: Plus1()(a))
         b.case(("idmap", repr(a.data)))
         want = tuple((e, c + 1) for e, c in a.data)
